@@ -72,10 +72,24 @@ def gen_graph_ws(root, rng, unique):
             deps.insert(deps.index(nxt), "unknown_dep")
             p[2] = deps
         ws.features.add(("ring_with_unknown_first",))
+    # some of a conftest's fixtures live in a helper module that the conftest star-imports (the others stay in the conftest
+    # and may depend on them)
+    helper_of = {}
+    if unique and rng.random() < 0.4:
+        confs = [f for f in files if f.endswith("conftest.py") and sum(1 for q in placed if q[1] == f) >= 2]
+        if confs:
+            cf = rng.choice(confs)
+            hp = os.path.join(os.path.dirname(cf), "ghelpers.py")
+            mine = [q for q in placed if q[1] == cf]
+            for q in rng.sample(mine, max(1, len(mine) // 2)):
+                q[1] = hp
+            files[hp] = []
+            helper_of[cf] = "from .ghelpers import *\n"
+            ws.features.add(("conftest_imports_helper",))
     for nm, f, deps, scope in placed:
         files[f].append(fx(nm, deps, scope, variant=rng.randint(0, 13)))
     for f, parts in files.items():
-        body = HDR + "".join(parts)
+        body = helper_of.get(f, "") + HDR + "".join(parts)
         if os.path.basename(f).startswith("test_"):
             body += "def test_t(" + ", ".join(rng.sample(names, min(2, len(names)))) + "):\n    pass\n"
         ws.files[f] = body
@@ -359,6 +373,14 @@ def server_diagnostics(ctx, ws, model):
                     r = model.resolve(f, dep, v if dep == d["name"] else None)
                     if r is not None and r[0] == "def" and SCOPES.index(d["scope"]) > SCOPES.index(r[2]["scope"]):
                         exp.add((d["line"] - 1, f"{d['scope']}-scoped fixture '{d['name']}' depends on {r[2]['scope']}-scoped fixture '{dep}'"))
+            for x in diags:
+                if x.get("code") == "circular-dependency":
+                    first = x["message"].split(": ", 1)[1].split(" → ")[0] if ": " in x["message"] else None
+                    ln = x["range"]["start"]["line"] + 1
+                    ctx.judged()
+                    if not any(d_["name"] == first and d_["line"] == ln for d_ in model.models[f].defs):
+                        ctx.violation({"kind": "cycle-diagnostic-not-anchored-at-a-definition-of-the-document", "file": rel, "name": first, "line": ln},
+                                      {"message": x["message"], "spec": ws.spec}, files=ws.files)
             got = {(x["range"]["start"]["line"], x["message"]) for x in diags if x.get("code") == "scope-mismatch"}
             ctx.judged()
             if exp != got:
